@@ -115,7 +115,7 @@ fn main() {
     ctx.rule(
         "A case is a limit N: Sieve::new(N) is compared element by element with trial division for every N in 0..=1500 (quick) / 0..=12000 \
          (thorough) - min_prime(n) for 2<=n<=N, is_prime(n) for 0<=n<=N, primes() = ascending primes <= N, factorize(n) = strictly \
-         increasing primes with exact exponents for every 1<=n<=N - and with an independent odd-only Eratosthenes for N = 10^6 and 10^7 (plus 3*10^7 thorough) plus limits adjacent to them, and for generated limits in 4001..300000 biased to prime squares and powers of two +-2 (factorize on a stride sample and the last 50 values there). Non-trivial = N within \
+         increasing primes with exact exponents for every 1<=n<=N - and with an independent odd-only Eratosthenes for N = 10^6 and 10^7 (plus 3*10^7 thorough) plus limits adjacent to them, for every multiple of 4096 up to 2^20 (1024 up to 2^21 thorough), and for generated limits in 4001..300000 biased to prime squares and powers of two +-2 (factorize on a stride sample and the last 50 values there). Non-trivial = N within \
          2 of a prime or prime square and containing a composite whose least prime squared exceeds N/2, or a large limit. Distinct = \
          distinct limits.",
     );
@@ -125,6 +125,22 @@ fn main() {
     ctx.exhaustive("every-limit", "sieve-case", &format!("every limit N in 0..={}", top), true, (0..=top).map(|limit| Case { limit, big: false }), run_case);
     let big: Vec<u32> = if ctx.thorough() { vec![999_983, 1_000_000, 1_000_003, 2_627_641, 9_999_991, 10_000_000, 16_777_216, 30_000_000] } else { vec![999_983, 1_000_000, 1_000_003, 1_018_081, 2_627_641, 10_000_000] };
     ctx.exhaustive("large-limits", "sieve-case", "limits around 10^6 (and 10^7 in the thorough tier), element by element against an independent sieve", false, big.into_iter().map(|limit| Case { limit, big: true }), run_case);
+    // limits at multiples of typical block sizes (the position of N relative to an internal block boundary):
+    // every multiple of 4096 up to 2^20 (quick) / of 1024 up to 2^21 (thorough), and the neighbours of the 16 KiB ones
+    {
+        let (step, top) = if ctx.thorough() { (1024u32, 1u32 << 21) } else { (4096u32, 1u32 << 20) };
+        let mut ls: Vec<u32> = Vec::new();
+        let mut k = step;
+        while k <= top {
+            ls.push(k);
+            if k % 16384 == 0 {
+                ls.push(k - 1);
+                ls.push(k + 1);
+            }
+            k += step;
+        }
+        ctx.exhaustive("block-boundary-limits", "sieve-case", &format!("every multiple of {} up to {} (and +-1 around multiples of 16384)", step, top), false, ls.into_iter().map(|limit| Case { limit, big: true }), run_case);
+    }
     // limits between the exhaustive block and 10^6: generated, biased to primes / prime squares / powers of two +-1
     use proptest::prelude::*;
     let lim = prop_oneof![
